@@ -12,7 +12,7 @@ import sys
 import time
 from random import Random
 
-CASE_WALL_S = int(os.environ.get("VERIF_CASE_WALL_S", "300"))
+CASE_WALL_S = int(os.environ.get("VERIF_CASE_WALL_S", "1500"))
 
 
 def bootstrap(needs_rust=False):
